@@ -535,6 +535,31 @@ def _forward_names(f, local):
         "branch", "from_residual", "into", "clone", "unwrap", "expect", "deref", "from"))
 
 
+def f16(led, rid, ctx):
+    """SIBLINGS: both declaration kinds merge an alias into the class of the variable it refers to
+    with the same argument order (the alias first)"""
+    b = ctx.bin
+    fs = [f for d, f in b.fns.items() if d.endswith("merge_equivalences::run")]
+    if len(fs) != 1:
+        raise AnchorMissing("merge_equivalences::run")
+    f = fs[0]
+    R = resolver(f)
+    n = 0
+    for c in f.calls_named("merge"):
+        if len(c.args) < 3:
+            continue
+        n += 1
+        a1, a2 = show(R.operand(c.args[1])), show(R.operand(c.args[2]))
+        own = lambda s_: ".id" in s_ and "expr" not in s_
+        ref = lambda s_: "expr" in s_ or "VarParIdentifier" in s_
+        led.check(own(a1) and ref(a2), rid, "merge:%s" % ("literal" if "literal" in show(R.operand(c.args[0])) else "integer"),
+                  c.span, "merge(declared id, referenced id)",
+                  "merge_equivalences merges with the arguments (%s, %s): the alias and the variable it refers "
+                  "to are swapped relative to the sibling arm, earlier aliases of the class keep a stale class "
+                  "and are bound to an unrelated variable" % (a1[:60], a2[:60]))
+    led.floor(rid, "equivalence merges", n, 2)
+
+
 def run(ctx, led):
     run_rule(led, "F1", "STALE-INDEX: no index computed before swap_remove/remove is used on the same "
              "vector afterwards without re-validation", f1, ctx)
@@ -561,3 +586,4 @@ def run(ctx, led):
     for _rid, _name in (("F14", "o1"), ("F15", "o4")):
         if hasattr(_C04, _name):
             run_rule(led, _rid, "the optimisation procedures `solve minimize/maximize` runs on: C04-%s (shared)" % _name.upper(), getattr(_C04, _name), ctx)
+    run_rule(led, "F16", "SIBLINGS: alias merging uses the same argument order for Booleans and integers", f16, ctx)
